@@ -76,6 +76,7 @@ def run(chk, F):
     chk.guard("prettify-arithmetic", "Number::prettify", lambda: prettify_arith(chk, F))
     chk.guard("parts-provenance", "to_parts_digits/show", lambda: provenance(chk, F))
     chk.guard("parts-provenance", "NumberParts constructions", lambda: same_number(chk, F))
+    chk.guard("quantity-label", "substance replies", lambda: quantity_label(chk, F))
     chk.guard("factor-exact", "eval_unit_name", lambda: factor_exact(chk, F))
     chk.guard("decompose", "fast_decompose", lambda: decompose(chk, F))
     chk.guard("merge-closures", "btree_merge callers", lambda: merges(chk, F))
@@ -305,6 +306,44 @@ def same_number(chk, F):
                        "(to_parts prettifies - it rescales the value to an SI prefix - so its unit only fits its own numeral)" % (sorted(nums), sorted(units)))
     if n < 1:
         chk.anchor_lost("parts-provenance", "NumberParts", "no NumberParts construction carrying both a numeral and a unit was found")
+
+
+def quantity_label(chk, F):
+    """Substance replies print ratio properties (output per input).  The quantity name attached to such a ratio must be
+    that of a quotient by the same input: every write of a NumberParts.quantity field in runtime/substance.rs takes the
+    `.quantity` of `to_parts(X / input)` where `input` is the value the printed ratio was divided by."""
+    n = 0
+    for fn in F.by_crate[CORE]:
+        if not fn.file.endswith("runtime/substance.rs"):
+            continue
+        for i, j, st in fn.stmts():
+            if st["k"] != "assign" or not any(isinstance(p, dict) and p.get("f") == "quantity" and p.get("of", "").endswith("NumberParts") for p in st["place"]["p"]):
+                continue
+            if "a" not in st["rv"]:
+                continue
+            n += 1
+            ap = fn.apath(st["rv"]["a"])
+            fk = "rink_core::" + k1norm(fn.path)
+            ok = False
+            why = "the label is `%s`" % ap_str(ap)[:120]
+            r = ap[0]
+            if r[0] == "call" and r[1].endswith("Number::to_parts") and ap[1][-1:] == ("quantity",):
+                q = r[2][0]
+                while q[0][0] == "call" and q[0][1].endswith(("Option::<T>::expect", "Option::<T>::unwrap")) and not q[1]:
+                    q = q[0][2][0]
+                if q[0][0] == "call" and "arith::Div<" in q[0][1] and q[0][1].endswith("::div") and len(q[0][2]) == 2:
+                    divisor = ap_str(q[0][2][1])
+                    # the same value divides the printed ratio: another Div in this body whose divisor mentions it
+                    others = [t for bb, t in fn.calls() if "callee" in t and "arith::Div<" in t["callee"]["path"] and bb != q[0][3]]
+                    base = divisor.replace("core::option::Option::<T>::as_ref(", "").split(")")[0]
+                    ok = any(base in ap_str(fn.apath(t["args"][1])) for t in others)
+                    why = "quantity of a quotient by `%s`%s" % (divisor[:60], "" if ok else ", which does not divide the printed value")
+            chk.decide(ok, "quantity-label", fk, "ratio-label-from-quotient-by-same-input", fn.where(i, j),
+                       "the quantity name of a ratio property is that of (unit / input), the same input the printed value is divided by",
+                       "the quantity name attached to a ratio property does not come from a quotient by the property's input (%s): the label "
+                       "names a different dimensionality than the value and unit printed next to it" % why)
+    if n < 4:
+        chk.anchor_lost("quantity-label", "runtime/substance.rs", "expected 4 writes of NumberParts.quantity in substance.rs, found %d" % n)
 
 
 def k1gen(fn):
